@@ -109,6 +109,8 @@ func runC08(c *Ctx, r *Report) {
 	r.Rule("C08.R5", "possibly-nil nodes inside the parser: a method is invoked on an element of a parsed list or on a parse result only after a nil test")
 	r.Rule("C08.R6", "comment terminators agree with the tokenizer: every byte on which readLineComment stops (notEOL false) is either a newline that skipWhitespace records, or makes NextToken return the end marker on every path; otherwise the parser's line-comment assertion (next token is on another line or is the end marker) is reachable")
 	r.Rule("C08.R7", "fixed-length operands: an index or slice bound applied to an operand whose length is a compile-time constant (array, pointer to array, string constant, package-level slice/string initialised once from a literal) is bounded by that length: by its type (a byte indexes 256 entries), or by a dominating comparison with a constant; generated files (stringer) are skipped")
+	r.Rule("C08.R9", "token.ByType is defined for what the front end asks: every constant token type passed to Parser.expectPeek / peekError / token.ByType is among the types registered through a function that stores tToT[its parameter]")
+	c.checkByTypeTotal(r, "C08.R9")
 	r.Rule("C08.R8", "both verdicts are consulted: outside of the parser, every use of a tree returned by Parser.ParseProgram (argument, field store, return) lies on the no-error edge of a test on that parser's Errors() and on the false edge of a test on its ContinuationNeeded()")
 	c.checkParserVerdicts(r, "C08.R8")
 	r.Rule("C16.R4", "(shared) the end marker is sticky")
